@@ -34,7 +34,7 @@ try:
     meta["checks"] = {}
     for c in checks:
         t0 = time.time()
-        env2 = dict(os.environ, HYPERCORN_SRC=f"{WT}/src", VERIF_NO_EVIDENCE="1")
+        env2 = dict(os.environ, HYPERCORN_SRC=f"{WT}/src", VERIF_NO_EVIDENCE="1", VERIF_REPLAY_DIR=f"/tmp/replays_{sid}")
         rc = sh(f"cd /verif && ./check {c} --tier quick --jobs {os.environ.get('SEED_JOBS','8')}", env=env2)
         lines = [l for l in rc.stdout.splitlines() if l.startswith("VIOLATION") or l.startswith("  clause")]
         meta["checks"][c] = {"exit": rc.returncode, "wall_s": round(time.time()-t0,1), "violations": lines[:8], "tail": rc.stdout.strip().splitlines()[-1:] }
@@ -53,4 +53,4 @@ try:
         print(c, v["exit"], v["wall_s"], v["violations"][:4], v["tail"])
 finally:
     sh(f"git -C /repo worktree remove --force {WT}")
-    sh("rm -rf /verif/replays/tmp")
+    sh(f"rm -rf /tmp/replays_{sid}")
